@@ -7,7 +7,7 @@ import shutil
 import tempfile
 
 from . import gen
-from .common import Batch, Result, canon_json, conv_tree, err_class, load_corpus, raw_parse, render_doc, rng_for
+from .common import Batch, Result, canon_json, conv_tree, dec, err_class, load_corpus, raw_parse, render_doc, rng_for
 from .decsnap import full_snapshot, impl_queries, impl_tables_public
 
 
@@ -51,6 +51,35 @@ def run(ctx):
                  "separated parameter lists, repeated semicolons, End line) and packaged as string, one file, or several files "
                  "(with/without BOM, each possibly closed by End); all public queries compared; non-trivial = distinct (base, variant) pair "
                  "with >= 2 statements")
+    batch = Batch(ctx["driver_ok"])
+
+    def tie_reader(text, case):
+        """the Lean reader against Lark on the same text"""
+        try:
+            want = ["ok", conv_tree(raw_parse(text))]
+        except Exception as e:
+            want = ["err"]
+
+        def on(ans, want=want, case=case):
+            if ans is None:
+                return
+            got = ["ok", _unwire(ans[1])] if ans[0] == "ok" else ["err"]
+            if got != want:
+                res.violation("the reader model and the real parser read a text differently", dict(case, text=text[:1500]),
+                              impl=want if want[0] == "err" else want[1][:3], model=got if got[0] == "err" else got[1][:3], clause="model tie: reader")
+
+        batch.add(["dec_read", [], text], on)
+
+    def tie_files(paths, concatenated, case):
+        raw = [open(x, "rb").read().decode("utf-8") for x in paths]
+
+        def on(ans, concatenated=concatenated, case=case):
+            if ans is not None and (ans[0] != "ok" or ans[1] != concatenated):
+                res.violation("the text assembled from the files differs from the model of the constructor", dict(case, raw=[r[:300] for r in raw]),
+                              impl=concatenated[:600], model=str(ans[1])[:600], clause="model tie: file concatenation")
+
+        batch.add(["concat_files", raw], on)
+
     n_docs = 100 if tier == "quick" else 1200
     n_layouts = 3 if tier == "quick" else 5
     tmp = tempfile.mkdtemp(prefix="verif_c02_")
@@ -95,6 +124,7 @@ def run(ctx):
                     text = lay.render(doc)
                     case = dict(case0, variant=text if len(text) < 3000 else text[:400] + "...", packaging="string")
                     got = snap_of(lambda: DecFileParser.from_string(text), heavy)
+                    tie_reader(text, {"kind": "reader", "label": label})
                 else:
                     paths = write_files(doc if mode == "files" else doc, lay, rng, f"{label}_{res.evaluations}_{j}") if mode == "files" else None
                     if mode == "one-file":
@@ -104,6 +134,10 @@ def run(ctx):
                             f.write(text)
                         paths = [path]
                     case = dict(case0, packaging=mode, files=[open(x, "rb").read().decode("utf-8", "replace")[:1500] for x in paths])
+                    q = DecFileParser(*paths)
+                    tie_files(paths, q._dec_file, {"kind": "files", "label": label})
+                    if len(q._dec_file) < 200000:
+                        tie_reader(q._dec_file, {"kind": "reader", "label": label + ":files"})
                     got = snap_of(lambda: DecFileParser(*paths), heavy)
             except Exception as e:
                 fk = None
@@ -159,5 +193,59 @@ def run(ctx):
         if big:
             saved = n_layouts
         one(doc, os.path.basename(f).replace(".", "_"), heavy=not big and acyclic(doc), base_text=text)
+    # malformed stream: validates the reader model on texts outside the well-formed domain (both must reject, or read alike)
+    n_mal = 300 if tier == "quick" else 6000
+    soup = ["Decay", "Enddecay", "End", "Alias", "Define", "CDecay", "ChargeConj", "ModelAlias", "CopyDecay", "Particle", "PHOTOS", "PHSP", "VSS",
+            "HELAMP", "1.0", "0.5", ".5", "-3", "2E-4", "x", "K+", "pi-", "MyD0", ";", ";;", ",", "\n", "\n", "\r\n", "# c\n", " ", "\t", "yesPhotos",
+            "JetSetPar", "PARJ(21)=0.5", "PythiaBothParam", "A:b=1", "=", ":", "LSFLAT", "IncludeBirthFactor", "yes", "SetLineshapePW", "3", "PHSPx", "1.0x", "Decayed"]
+    for i in range(n_mal):
+        if rng.random() < 0.5:
+            doc, _ = gen.gen_doc(rng, n_blocks=rng.randint(0, 3))
+            t = gen.Layout(rng).render(doc)
+            k = rng.randrange(max(1, len(t)))
+            r = rng.random()
+            if r < 0.3:
+                t = t[:k] + t[k + 1:]
+            elif r < 0.6:
+                t = t[:k] + rng.choice(soup) + t[k:]
+            elif r < 0.8:
+                t = t[:k] + rng.choice(" \t\n;#,") + t[k:]
+            else:
+                j = rng.randrange(max(1, len(t)))
+                a, b = sorted((k, j))
+                t = t[:a] + t[b:]
+        else:
+            t = "".join(rng.choice(soup) + rng.choice([" ", " ", "", "\n"]) for _ in range(rng.randint(1, 14)))
+        tie_reader(t, {"kind": "reader", "label": "malformed"})
+        res.count("malformed_texts")
+    batch.run()
     shutil.rmtree(tmp, ignore_errors=True)
     return res.done()
+
+
+def _unwire(x):
+    """decoded model statements -> the wire form conv_tree produces (None / True / False instead of N / T / F)"""
+    out = []
+    for st in x:
+        k = st[0]
+        if k == "decay":
+            out.append(["decay", st[1], [[l[0], list(l[1]), l[2] == "T", _unwire_model(l[3])] for l in st[2]]])
+        elif k == "model_alias":
+            out.append(["model_alias", st[1], _unwire_model(st[2])])
+        elif k == "particle_def":
+            out.append(["particle_def", st[1], st[2], None if st[3] == "N" else [st[3][0]]])
+        elif k in ("inc_factor",):
+            out.append([k, st[1], st[2], st[3] == "T"])
+        elif k == "global_photos":
+            out.append([k, st[1] == "T"])
+        elif k == "pythia":
+            out.append([k, st[1], st[2], st[3], list(st[4])])
+        else:
+            out.append(list(st))
+    return out
+
+
+def _unwire_model(m):
+    if m[0] == "alias":
+        return ["alias", m[1]]
+    return ["named", m[1], None if m[2] == "N" else [list(p) for p in m[2]]]
